@@ -514,6 +514,53 @@ func checkSuccessPath(p *core.Program, r *core.Report, hu flow.FuncUnit, g *flow
 	r.Check(len(probs) == 0, "O9.2", cn, p.Pos(writes[0].Pos()), "WriteHeader(200) ≺ Write(json.Marshal(&proof)), proof assigned only from the prover", strings.Join(probs, "; "))
 }
 
+// modeBranches lists the (mode constant, branch body) pairs of a function: if/else-if chains on `x == "<mode>"` and clauses
+// of a switch whose cases are mode constants.
+func modeBranches(info *types.Info, root ast.Node) []struct {
+	Mode string
+	Body ast.Node
+	Pos  token.Pos
+} {
+	var out []struct {
+		Mode string
+		Body ast.Node
+		Pos  token.Pos
+	}
+	ast.Inspect(root, func(n ast.Node) bool {
+		switch x := n.(type) {
+		case *ast.IfStmt:
+			if cst, ok := modeComparison(info, x.Cond); ok {
+				out = append(out, struct {
+					Mode string
+					Body ast.Node
+					Pos  token.Pos
+				}{cst, x.Body, x.Pos()})
+			}
+		case *ast.SwitchStmt:
+			if x.Tag == nil {
+				return true
+			}
+			for _, c := range x.Body.List {
+				cc, ok := c.(*ast.CaseClause)
+				if !ok {
+					continue
+				}
+				for _, e := range cc.List {
+					if s, ok := constString(info, e); ok && (s == "insertion" || s == "deletion") {
+						out = append(out, struct {
+							Mode string
+							Body ast.Node
+							Pos  token.Pos
+						}{s, &ast.BlockStmt{List: cc.Body, Lbrace: cc.Colon, Rbrace: cc.End()}, cc.Pos()})
+					}
+				}
+			}
+		}
+		return true
+	})
+	return out
+}
+
 // checkModeDispatch: O9.3.
 func checkModeDispatch(p *core.Program, r *core.Report, ix *funcIndex, hu flow.FuncUnit) {
 	info := hu.Pkg.TypesInfo
@@ -524,43 +571,27 @@ func checkModeDispatch(p *core.Program, r *core.Report, ix *funcIndex, hu flow.F
 			continue
 		}
 		ci := c.Pkg.TypesInfo
-		ast.Inspect(c.Action.Node, func(n ast.Node) bool {
-			ifs, ok := n.(*ast.IfStmt)
-			if !ok {
-				return true
-			}
-			if cst, ok := modeComparison(ci, ifs.Cond); ok {
-				ast.Inspect(ifs.Body, func(m ast.Node) bool {
-					if call, ok := m.(*ast.CallExpr); ok {
-						if fn, _ := typeutil.Callee(ci, call).(*types.Func); fn != nil && inRepoObj(fn) && fn.Pkg().Name() == "prover" {
-							if T, _, _ := circuitTypeOf(p, fn.Name()); T != nil {
-								constCircuit[cst] = typeKey(T)
-							}
+		for _, mb := range modeBranches(ci, c.Action.Node) {
+			ast.Inspect(mb.Body, func(m ast.Node) bool {
+				if call, ok := m.(*ast.CallExpr); ok {
+					if fn, _ := typeutil.Callee(ci, call).(*types.Func); fn != nil && inRepoObj(fn) && fn.Pkg().Name() == "prover" {
+						if T, _, _ := circuitTypeOf(p, fn.Name()); T != nil {
+							constCircuit[mb.Mode] = typeKey(T)
 						}
 					}
-					return true
-				})
-			}
-			return true
-		})
+				}
+				return true
+			})
+		}
 	}
 	if len(constCircuit) < 2 {
 		r.Undecided("O9.3", "main.cmd:setup: mode constant → circuit", "-", "cannot derive which circuit each mode constant compiles from the setup command (found %v)", constCircuit)
 		return
 	}
 	n := 0
-	ast.Inspect(hu.Node, func(nd ast.Node) bool {
-		ifs, ok := nd.(*ast.IfStmt)
-		if !ok {
-			return true
-		}
-		cst, ok := modeComparison(info, ifs.Cond)
-		if !ok {
-			return true
-		}
-		// prover method called in this branch → its witness circuit type
+	for _, mb := range modeBranches(info, hu.Node) {
 		var got []string
-		ast.Inspect(ifs.Body, func(m ast.Node) bool {
+		ast.Inspect(mb.Body, func(m ast.Node) bool {
 			if call, ok := m.(*ast.CallExpr); ok {
 				if fn, _ := typeutil.Callee(info, call).(*types.Func); fn != nil && inRepoObj(fn) {
 					if sf := p.SSA.FuncValue(fn); sf != nil {
@@ -573,12 +604,11 @@ func checkModeDispatch(p *core.Program, r *core.Report, ix *funcIndex, hu flow.F
 			return true
 		})
 		n++
-		cn := fmt.Sprintf("%s: mode %q", hu.Name, cst)
-		want := constCircuit[cst]
-		r.Check(len(got) == 1 && got[0] == want, "O9.3", cn, p.Pos(ifs.Pos()), "proves with the circuit that `setup --mode "+cst+"` compiles ("+want+")",
-			fmt.Sprintf("under mode %q the handler builds a witness for %v but `setup --mode %s` compiles %s: every request would fail or prove the other circuit", cst, got, cst, want))
-		return true
-	})
+		cn := fmt.Sprintf("%s: mode %q", hu.Name, mb.Mode)
+		want := constCircuit[mb.Mode]
+		r.Check(len(got) == 1 && got[0] == want, "O9.3", cn, p.Pos(mb.Pos), "proves with the circuit that `setup --mode "+mb.Mode+"` compiles ("+want+")",
+			fmt.Sprintf("under mode %q the handler builds a witness for %v but `setup --mode %s` compiles %s: every request would fail or prove the other circuit", mb.Mode, got, mb.Mode, want))
+	}
 	r.Count("handler mode branches", n)
 	r.Floor("handler mode branches", 2)
 }
